@@ -432,7 +432,10 @@ def _thread_strategy(tier, sc):
         else:
             d = len(c["shape"])
             c["shape"] = draw(gen.grid_shape(d, 5, 34 if d == 2 else 12))
-        c["threads"] = draw(st.lists(st.sampled_from(THREADS), min_size=2, max_size=3, unique=True))
+        # two or three distinct thread counts; half of the cases span the whole range (fewer threads than planes vs more threads than
+        # planes take different paths in blocked / load-balanced implementations)
+        c["threads"] = draw(st.one_of(st.lists(st.sampled_from(THREADS), min_size=2, max_size=3, unique=True),
+                                      st.sampled_from([[1, 16], [2, 16], [2, 8, 16], [3, 16], [1, 5, 16]])))
         c["include_serial_build"] = draw(st.booleans())
         return c
 
